@@ -435,3 +435,34 @@ func exitPoint(in ssa.Instruction) (*ssa.Return, bool) {
 	}
 	return nil, false
 }
+
+
+// OnlyClauses restricts a rule to the obligations whose construct starts with one of the given clause names (used when
+// a property borrows some clauses of a rule that belongs to another property). At least one obligation per clause
+// must remain, otherwise the clause's anchor is lost.
+func OnlyClauses(r *Rule, clauses []string) *Rule {
+	return &Rule{
+		ID:    r.ID,
+		Text:  r.Text + " [this property evaluates only the clauses " + strings.Join(clauses, ", ") + " of the rule]",
+		Floor: len(clauses),
+		Run: func(p *Program) []Obligation {
+			var out []Obligation
+			n := map[string]int{}
+			for _, o := range r.Run(p) {
+				for _, c := range clauses {
+					if strings.HasPrefix(o.Construct, c) {
+						out = append(out, o)
+						n[c]++
+						break
+					}
+				}
+			}
+			for _, c := range clauses {
+				if n[c] == 0 {
+					out = append(out, Obligation{Rule: r.ID, Construct: c + " clause", Verdict: AnchorLost, Detail: "the rule produced no obligation for this clause"})
+				}
+			}
+			return out
+		},
+	}
+}
